@@ -1,6 +1,6 @@
 SPECIFICATION FsmSpec
 CONSTANTS
-  MaxLen = 4
+  MaxLen = 3
   Kinds = {"S", "SA", "A", "AD", "FA", "R"}
   Smes = {TRUE, FALSE}
   ExportEvery = FALSE
